@@ -176,14 +176,22 @@ Proof.
   - split; [intros _ x Hx; discriminate|reflexivity].
 Qed.
 
+Lemma has_sha_spec e : has_sha e = true <-> exists h, get e "sha1" = Some (JStr h).
+Proof.
+  unfold has_sha. destruct (get e "sha1") as [[| | |h| |]|]; try (split; [discriminate|intros [h' H]; discriminate]).
+  split; [intros _; exists h; reflexivity|reflexivity].
+Qed.
+
 Lemma file_entity_ok_spec ar e i :
   ent_id e = Some i -> (file_entity_ok ar e = true <-> RecordedOk ar e i).
 Proof.
-  intro Hid. unfold file_entity_ok, RecordedOk. rewrite Hid, andb_true_iff, has_entry_spec.
+  intro Hid. unfold file_entity_ok, RecordedOk. rewrite Hid, !andb_true_iff, has_sha_spec, has_entry_spec.
   rewrite (entries_forall_spec ar i (fun d s => sha_ok e d && size_ok e s)).
-  split; intros [H1 H2]; (split; [exact H1|]); intros d s Hin; specialize (H2 d s Hin).
-  - apply andb_true_iff in H2. destruct H2 as [Ha Hb]. split; [apply sha_ok_spec|apply size_ok_spec]; assumption.
-  - apply andb_true_iff. destruct H2 as [Ha Hb]. split; [apply sha_ok_spec|apply size_ok_spec]; assumption.
+  split.
+  - intros [[H0 H1] H2]. split; [exact H0|split; [exact H1|]]. intros d s Hin. specialize (H2 d s Hin).
+    apply andb_true_iff in H2. destruct H2 as [Ha Hb]. split; [apply sha_ok_spec|apply size_ok_spec]; assumption.
+  - intros [H0 [H1 H2]]. split; [split; [exact H0|exact H1]|]. intros d s Hin. specialize (H2 d s Hin).
+    apply andb_true_iff. destruct H2 as [Ha Hb]. split; [apply sha_ok_spec|apply size_ok_spec]; assumption.
 Qed.
 
 Lemma files_ok_spec g ar :
@@ -222,28 +230,6 @@ Proof.
     + intros d s' Hd. destruct (Hall d s' Hd) as [-> ->]. rewrite String.eqb_refl, N.eqb_refl. reflexivity.
 Qed.
 
-Lemma item_ok_spec g ar j it : item_ok g ar j it = true <-> ItemOk g ar j it.
-Proof.
-  destruct it as [h s|alts]; simpl.
-  - destruct (ref_of j) as [y|].
-    + rewrite file_ok_spec. split; [intro H; exists y; auto|intros [y' [Heq H]]; inversion Heq; subst; exact H].
-    + split; [discriminate|intros [y [Heq _]]; discriminate].
-  - destruct (lit_text j) as [t|].
-    + rewrite str_in_spec. split; [intro H; exists t; auto|intros [t' [Heq H]]; inversion Heq; subst; exact H].
-    + split; [discriminate|intros [t [Heq _]]; discriminate].
-Qed.
-
-Lemma items_ok_spec g ar js : forall its, items_ok g ar js its = true <-> Forall2 (ItemOk g ar) js its.
-Proof.
-  induction js as [|j js IH]; intros [|it its]; simpl.
-  - split; [constructor|reflexivity].
-  - split; [discriminate|intro H; inversion H].
-  - split; [discriminate|intro H; inversion H].
-  - rewrite andb_true_iff, item_ok_spec, IH. split.
-    + intros [H1 H2]. constructor; assumption.
-    + intro H. inversion H; subst. split; assumption.
-Qed.
-
 Lemma reachb_spec g n : forall x y, reachb g n x y = true <-> ReachN g n x y.
 Proof.
   induction n as [|n IH]; intros x y; simpl.
@@ -265,28 +251,63 @@ Qed.
 
 Local Arguments reachb g n x y : simpl never.
 
+Lemma dir_files_ok_spec g ar x files : dir_files_ok g ar x files = true <-> DirFilesOk g ar x files.
+Proof.
+  unfold dir_files_ok, DirFilesOk. rewrite forallb_forall. split.
+  - intros H2 h s Hin. specialize (H2 (h, s) Hin). simpl in H2.
+    apply existsb_exists in H2. destruct H2 as [fe [Hfe Hy]]. destruct (ent_id fe) as [y|]; [|discriminate].
+    apply andb_true_iff in Hy. destruct Hy as [Hr Hf]. exists y. split; [apply reachb_spec; exact Hr|apply file_ok_spec; exact Hf].
+  - intros H2 [h s] Hin. simpl. destruct (H2 h s Hin) as [y [Hr Hf]].
+    apply existsb_exists. destruct Hf as [[fe [[Hfin Hfid] Hrest]] Hrest2].
+    exists fe. split; [exact Hfin|]. rewrite Hfid. apply andb_true_iff.
+    split; [apply reachb_spec; exact Hr|apply file_ok_spec; split; [exists fe; split; [split; assumption|exact Hrest]|exact Hrest2]].
+Qed.
+
+Lemma item_ok_spec g ar j it : item_ok g ar j it = true <-> ItemOk g ar j it.
+Proof.
+  destruct it as [h s|alts|files]; simpl.
+  - destruct (ref_of j) as [y|].
+    + rewrite file_ok_spec. split; [intro H; exists y; auto|intros [y' [Heq H]]; inversion Heq; subst; exact H].
+    + split; [discriminate|intros [y [Heq _]]; discriminate].
+  - destruct (lit_text j) as [t|].
+    + rewrite str_in_spec. split; [intro H; exists t; auto|intros [t' [Heq H]]; inversion Heq; subst; exact H].
+    + split; [discriminate|intros [t [Heq _]]; discriminate].
+  - destruct (ref_of j) as [y|].
+    + rewrite andb_true_iff, dir_files_ok_spec, existsb_exists. split.
+      * intros [[e [Hin He]] Hd]. apply andb_true_iff in He. destruct He as [Hi Ht]. exists y. split; [reflexivity|].
+        split; [exists e; split; [split; [exact Hin|apply id_is_spec; exact Hi]|apply has_type_spec; exact Ht]|exact Hd].
+      * intros [y' [Heq [[e [[Hin Hi] Ht]] Hd]]]. inversion Heq; subst y'. split; [|exact Hd].
+        exists e. split; [exact Hin|]. apply andb_true_iff. split; [apply id_is_spec; exact Hi|apply has_type_spec; exact Ht].
+    + split; [discriminate|intros [y [Heq _]]; discriminate].
+Qed.
+
+Lemma items_ok_spec g ar js : forall its, items_ok g ar js its = true <-> Forall2 (ItemOk g ar) js its.
+Proof.
+  induction js as [|j js IH]; intros [|it its]; simpl.
+  - split; [constructor|reflexivity].
+  - split; [discriminate|intro H; inversion H].
+  - split; [discriminate|intro H; inversion H].
+  - rewrite andb_true_iff, item_ok_spec, IH. split.
+    + intros [H1 H2]. constructor; assumption.
+    + intro H. inversion H; subst. split; assumption.
+Qed.
+
 Lemma val_ok_spec g ar e x v : val_ok g ar e x v = true <-> ValOk g ar e x v.
 Proof.
-  destruct v as [[h s|alts]|its|files]; simpl.
+  destruct v as [[h s|alts|dfiles]|its|files]; simpl.
   - apply file_ok_spec.
   - rewrite andb_true_iff, has_type_spec. destruct (get e "value") as [j|].
     + pose proof (item_ok_spec g ar j (ILit alts)) as Hi. simpl in Hi. rewrite Hi.
       split; [intros [H1 H2]; split; [exact H1|exists j; auto]|
               intros [H1 [j' [Heq H2]]]; inversion Heq; subst; auto].
     + split; [intros [_ H]; discriminate|intros [_ [j [Heq _]]]; discriminate].
+  - rewrite andb_true_iff, has_type_spec, dir_files_ok_spec. tauto.
   - rewrite andb_true_iff, has_type_spec. destruct (get e "value") as [j|].
     + rewrite items_ok_spec.
       split; [intros [H1 H2]; split; [exact H1|exists j; auto]|
               intros [H1 [j' [Heq H2]]]; inversion Heq; subst; auto].
     + split; [intros [_ H]; discriminate|intros [_ [j [Heq _]]]; discriminate].
-  - rewrite andb_true_iff, has_type_spec, forallb_forall. split.
-    + intros [H1 H2]. split; [exact H1|]. intros h s Hin. specialize (H2 (h, s) Hin). simpl in H2.
-      apply existsb_exists in H2. destruct H2 as [fe [Hfe Hy]]. destruct (ent_id fe) as [y|]; [|discriminate].
-      apply andb_true_iff in Hy. destruct Hy as [Hr Hf]. exists y. split; [apply reachb_spec; exact Hr|apply file_ok_spec; exact Hf].
-    + intros [H1 H2]. split; [exact H1|]. intros [h s] Hin. simpl. destruct (H2 h s Hin) as [y [Hr Hf]].
-      apply existsb_exists. destruct Hf as [[fe [[Hfin Hfid] Hrest]] Hrest2].
-      exists fe. split; [exact Hfin|]. rewrite Hfid. apply andb_true_iff.
-      split; [apply reachb_spec; exact Hr|apply file_ok_spec; split; [exists fe; split; [split; assumption|exact Hrest]|exact Hrest2]].
+  - rewrite andb_true_iff, has_type_spec, dir_files_ok_spec. tauto.
 Qed.
 
 Lemma name_is_spec e n : name_is e n = true <-> get e "name" = Some (JStr n).
@@ -465,6 +486,15 @@ Qed.
 Corollary crate_ok_iff g ar vs ss : crate_ok g ar vs ss = true <-> wf_crate g ar vs ss.
 Proof. split; [apply crate_ok_sound|apply crate_ok_complete]. Qed.
 
+Theorem doc_ok_iff m ar vs ss : doc_ok m ar vs ss = true <-> wf_doc m ar vs ss.
+Proof.
+  unfold doc_ok, wf_doc. split.
+  - destruct (get m "@context") as [ctx|]; [|discriminate].
+    destruct (get m "@graph") as [[| | | |g|]|]; try discriminate.
+    intro H. exists ctx, g. split; [reflexivity|split; [reflexivity|apply crate_ok_sound; exact H]].
+  - intros (ctx & g & -> & -> & H). apply crate_ok_complete. exact H.
+Qed.
+
 (* ---------------------------------------------------------------- consequences of well-formedness *)
 Lemma in_ids g i : In i (ids g) <-> exists e, Entity g i e.
 Proof.
@@ -507,7 +537,7 @@ Lemma wf_file_present g ar vs ss : wf_crate g ar vs ss ->
   forall e i h, Entity g i e -> HasType e "File" -> get e "sha1" = Some (JStr h) ->
     exists s, In (i, h, s) ar.
 Proof.
-  intros Hwf e i h He Ht Hs. destruct (wf_files _ _ _ _ Hwf e i He Ht) as [[d [s Hin]] Hall].
+  intros Hwf e i h He Ht Hs. destruct (wf_files _ _ _ _ Hwf e i He Ht) as [_ [[d [s Hin]] Hall]].
   destruct (Hall d s Hin) as [Hsha _]. specialize (Hsha _ Hs). inversion Hsha; subst. exists s. exact Hin.
 Qed.
 
